@@ -4,16 +4,17 @@
 # from /repo's current working tree into a fresh target dir, which is removed afterwards.
 set -e
 OUT="$1"; shift
+VERIF="$(cd "$(dirname "$0")/.." && pwd)"
 SYSROOT=$(rustc +nightly --print sysroot)
 T=$(mktemp -d /tmp/factgen-target.XXXXXX)
 trap 'rm -rf "$T"' EXIT
 mkdir -p "$OUT"
 FIXTURE="${FIXTURE:-roots}"
-if [ "$FIXTURE" = roots ]; then cp /repo/Cargo.lock /verif/fixtures/roots/Cargo.lock; fi
-cd /verif/fixtures/$FIXTURE
+if [ "$FIXTURE" = roots ]; then cp /repo/Cargo.lock "$VERIF/fixtures/roots/Cargo.lock"; fi
+cd "$VERIF/fixtures/$FIXTURE"
 LD_LIBRARY_PATH="$SYSROOT/lib" \
 RUSTFLAGS="-Zmir-opt-level=0 -Zalways-encode-mir -Awarnings --cfg zerocopy_derive_union_into_bytes ${EXTRA_RUSTFLAGS}" \
-RUSTC_WRAPPER=/verif/factgen/target/debug/factgen \
+RUSTC_WRAPPER="$VERIF/factgen/target/debug/factgen" \
 FACTGEN_OUT="$OUT" \
 FACTGEN_CRATES=verif_roots,verif_controls,c2_chacha,blake_hash,groestl_aesni,jh_x86_64,skein_hash,threefish_cipher,ppv_lite86,ppv_null,crypto_simd \
 CARGO_TARGET_DIR="$T" CARGO_NET_OFFLINE=true \
